@@ -62,7 +62,12 @@ def construct(cls, a):
         txs = [TranscriptInterval([2 + i], [9 + i], Strand.PLUS, is_primary_tx=(i < flags) or None,
                                   transcript_id="t%d" % i) for i in range(n)]
         if dup and n >= 2:
-            txs[1] = TranscriptInterval([2], [9], Strand.PLUS, is_primary_tx=(0 < flags) or None, transcript_id="t0")
+            if n % 2:
+                # an equal copy of the first child (same content, hence the same identifier)
+                txs[1] = TranscriptInterval([2], [9], Strand.PLUS, is_primary_tx=(0 < flags) or None, transcript_id="t0")
+            else:
+                # a DIFFERENT isoform that carries the first child's identifier (a copied and edited record)
+                txs[1] = TranscriptInterval([3], [11], Strand.PLUS, transcript_id="t1", guid=txs[0].guid)
         return GeneInterval(txs)
     if cls == "VAR":
         return VariantInterval(a[0], a[1], "A" * a[2], "x", parent_or_seq_chunk_parent=_parent(a[3]))
@@ -170,6 +175,12 @@ def _random_cases(rnd, n):
                 cs = [ss[0] + rnd.randrange(-1, 3)]
                 ce = [cs[0] + rnd.randrange(0, 6)]
                 fr = [0] * rnd.choice([1, 1, 2])
+                if k == 2 and rnd.random() < 0.5:
+                    # a CDS of two blocks: the first ends with the first exon, the second starts with the second exon and
+                    # ends inside, at, or past the end of the last exon
+                    cs = [min(cs[0], es[0]), ss[1]]
+                    ce = [es[0], es[1] + rnd.choice([-1, 0, 0, 1, 2])]
+                    fr = [0, 0] if rnd.random() < 0.85 else [0]
             a = [ss, es, rnd.choice("+-"), cs, ce, fr, sl]
         elif cls == "VAR":
             s0 = r(0, 8)
